@@ -5,18 +5,6 @@ From SV Require Import Model.Common Model.System Proofs.SystemLists Proofs.Syste
 Import ListNotations.
 Open Scope nat_scope.
 
-(* events excluded by the hypotheses of the order theorems: a chunk whose file survives although the chunk was
-   dropped from the queue (queue overflow after a successful spill; read error at load time) is recovered at the
-   next start and delivered after newer chunks *)
-Definition order_safe_event (e : event) : bool :=
-  match e with
-  | EChunkClose _ _ ADropFullSaved => false
-  | EWorkerStop _ _ ADropFullSaved => false
-  | EFeederLoad _ false => false
-  | _ => true
-  end.
-Definition order_safe (es : list event) : bool := forallb order_safe_event es.
-
 Definition all_chunks (s : state) : list chunk :=
   map q_chunk (items s) ++ files s ++ acked s ++ dropped s ++ received s.
 
